@@ -642,7 +642,7 @@ pub fn main(subjects: &[&'static dyn Subject], defs_json: &str, cfg: BuildCfg) -
     ];
     let fams = families_for(&prop);
     let caps = if args.thorough() { (1500, 4000) } else { (300, 900) };
-    let cases: u32 = if args.cases > 0 { args.cases } else if args.thorough() { 1500 } else { 300 };
+    let cases: u32 = if args.cases > 0 { args.cases } else if args.thorough() { 2500 } else { 800 };
     // C07 is quadratic per input: fewer, shorter inputs
     let (caps, cases) = if prop == "C07" { ((caps.0 / 3, caps.1 / 4), cases / 3) } else { (caps, cases) };
     let mut code = 0;
